@@ -263,3 +263,65 @@ class rng:
             else:
                 setattr(mod, self.attr, old)
         return False
+
+
+# ---------------------------------------------------------------------------
+# numpy stand-in for xgi.linalg.hodge_matrix (entries may be symbolic integers)
+# ---------------------------------------------------------------------------
+class Mat:
+    """Dense matrix of python/symbolic integers supporting exactly what
+    boundary_matrix / hodge_laplacian use: zeros, item assignment, transpose, @, +."""
+
+    def __init__(self, shape, data=None):
+        self.shape = tuple(shape)
+        self.data = data if data is not None else {}
+
+    def __setitem__(self, ij, v):
+        i, j = ij
+        if not (0 <= i < self.shape[0] and 0 <= j < self.shape[1]):
+            raise IndexError("index out of bounds")
+        self.data[(i, j)] = v
+
+    def __getitem__(self, ij):
+        i, j = ij
+        if not (0 <= i < self.shape[0] and 0 <= j < self.shape[1]):
+            raise IndexError("index out of bounds")
+        return self.data.get((i, j), 0)
+
+    @property
+    def T(self):
+        return Mat((self.shape[1], self.shape[0]), {(j, i): v for (i, j), v in self.data.items()})
+
+    def __matmul__(self, o):
+        if self.shape[1] != o.shape[0]:
+            raise ValueError("matmul: dimension mismatch")
+        out = Mat((self.shape[0], o.shape[1]))
+        rows = {}
+        for (i, k), v in self.data.items():
+            rows.setdefault(k, []).append((i, v))
+        for (k, j), w in o.data.items():
+            for i, v in rows.get(k, ()):
+                cur = out.data.get((i, j), 0)
+                out.data[(i, j)] = cur + v * w
+        return out
+
+    def __add__(self, o):
+        if self.shape != o.shape:
+            raise ValueError("add: shape mismatch")
+        out = Mat(self.shape, dict(self.data))
+        for ij, v in o.data.items():
+            out.data[ij] = out.data.get(ij, 0) + v
+        return out
+
+
+class NPStub:
+    def __init__(self, ctx=None):
+        self.ctx = ctx
+
+    def zeros(self, shape):
+        if self.ctx is not None:
+            self.ctx.hit("np.zeros")
+        return Mat(shape)
+
+    def transpose(self, m):
+        return m.T
